@@ -459,6 +459,15 @@ func (w *World) callbacks(h *StoreH, cmpOf func(name string) int) gkvlite.StoreC
 		cb.ItemValRead = func(c *gkvlite.Collection, i *gkvlite.Item, r io.ReaderAt, offset int64, valLength uint32) error {
 			w.yield("cb-valread")
 			v := make([]byte, valLength)
+			if h.Chunk%3 == 0 {
+				// what the built-in reader does: one ReadAt for the whole
+				// value, also when it is empty
+				if _, err := r.ReadAt(v, offset); err != nil {
+					return err
+				}
+				i.Val = v
+				return nil
+			}
 			chunk := chunk
 			if len(v)/chunk > 48 {
 				chunk = len(v)/48 + 1
